@@ -61,7 +61,7 @@ fn header<B: Backend>(kind: u8, secret: bool) -> String {
     }
 }
 
-fn boundaries(ver: Ver, kind: u8, n: usize) -> Vec<usize> {
+pub fn boundaries(ver: Ver, kind: u8, n: usize) -> Vec<usize> {
     match kind {
         0 => {
             let t = if ver.nist() { 48 } else { 32 };
